@@ -318,6 +318,11 @@ long long c_delineate_boundary(long long nrows, long long ncols,
                 break;
         }
 
+        /* No cell left in the buffer (e.g. area of a single cell):
+         * the boundary is complete, buffer[knext] does not exist */
+        if(knext < 0)
+            break;
+
         /* Iterate if we have a neighbour */
         buffer[knext] = -1;
         idxcell = next;
